@@ -29,6 +29,11 @@ pub fn escape(s: &str) -> Vec<u8> {
 
 /// Re-indent a *compact* well-formed JSON text: 2 spaces, `": "`, empty containers `[]`/`{}`.
 pub fn pretty(compact: &[u8]) -> Vec<u8> {
+    pretty_with(compact, b"  ")
+}
+
+/// the same with an arbitrary indent unit
+pub fn pretty_with(compact: &[u8], unit: &[u8]) -> Vec<u8> {
     let mut o = Vec::with_capacity(compact.len() * 2);
     let mut depth = 0usize;
     let mut i = 0;
@@ -36,7 +41,7 @@ pub fn pretty(compact: &[u8]) -> Vec<u8> {
     let nl = |o: &mut Vec<u8>, d: usize| {
         o.push(b'\n');
         for _ in 0..d {
-            o.extend_from_slice(b"  ");
+            o.extend_from_slice(unit);
         }
     };
     while i < b.len() {
